@@ -38,6 +38,7 @@ type c18Gen struct {
 	lits              []string
 	hasPkgs, hasNamed bool
 	hasShape, hasPrint bool
+	hasTwins           bool
 	n                 int
 }
 
@@ -137,6 +138,14 @@ func (g *c18Gen) step() {
 		}
 		g.add("if %s() >= 0 { q := &T{A: %d, S: \"b\"}; %s += q.A + q.Double() }", f, g.r.Intn(9), v)
 		g.add("for i := 0; i < 2; i++ { q := &T{A: i}; q.Add(%s()); %s += q.A }", f, v)
+	case k < 9 && g.r.Chance(1, 8) && !g.hasTwins:
+		// two independent packages: one imports a third under an alias, the other uses that alias's name for a
+		// variable of its own
+		g.hasTwins = true
+		g.add("import \"alpha\"")
+		g.add("println(alpha.Tag(), alpha.Twice(%d))", g.r.Intn(9))
+		g.add("import \"beta\"")
+		g.add("println(beta.Tag(), beta.Twice(%d), alpha.Tag())", g.r.Intn(9))
 	case k < 9 && g.r.Chance(1, 6) && !g.hasShape:
 		// a package and another package that imports it, imported by separate statements: the later import
 		// meets the first package's types again
@@ -365,6 +374,9 @@ func (g *c18Gen) step() {
 
 func c18Generate(seed int64, idx int) c18Prog {
 	g := &c18Gen{r: core.Derive(seed, "c18", idx)}
+	if g.r.Chance(1, 4) {
+		g.add("package main") // a program text may begin with its package clause
+	}
 	g.add("import \"fmt\"")
 	n := g.r.Range(4, 14)
 	if g.r.Chance(1, 15) {
@@ -424,6 +436,9 @@ var c18FS = core.MapFS(map[string]string{
 	"wire/codec/codec.go": "package codec\n\nvar Tag = \"wire\"\n\nfunc Size(n int) int {\n\treturn n + 1\n}\n",
 	"disk/codec/codec.go": "package codec\n\nvar Tag = \"disk\"\n\nfunc Size(n int) int {\n\treturn n * 4\n}\n",
 	"util/util.go":        "package util\n\nvar Count = 10\n\nfunc Inc() int {\n\tCount++\n\treturn Count\n}\n",
+	"a0pkg/a0.go":         "package a0pkg\n\nfunc Tag() string {\n\treturn \"package a0\"\n}\n\nfunc Twice(n int) int {\n\treturn n * 2\n}\n",
+	"alpha/alpha.go":      "package alpha\n\nimport (\n\ta0 \"a0pkg\"\n)\n\nfunc Tag() string {\n\treturn \"alpha:\" + a0.Tag()\n}\n\nfunc Twice(n int) int {\n\treturn a0.Twice(n) + 1\n}\n",
+	"beta/beta.go":        "package beta\n\ntype tg struct {\n\tk int\n}\n\nfunc (t *tg) Tag() string {\n\treturn \"variable a0\"\n}\n\nfunc (t *tg) Twice(n int) int {\n\treturn n*20 + t.k\n}\n\nvar a0 = &tg{k: 3}\n\nfunc Tag() string {\n\treturn \"beta:\" + a0.Tag()\n}\n\nfunc Twice(n int) int {\n\treturn a0.Twice(n)\n}\n",
 	"shape/shape.go":      "package shape\n\ntype Box struct {\n\tW int\n\tH int\n\tTag string\n}\n\nfunc (b *Box) Area() int {\n\treturn b.W * b.H\n}\n\nfunc New(w int) *Box {\n\treturn &Box{W: w, H: w + 1, Tag: \"box\"}\n}\n",
 	"draw/draw.go":        "package draw\n\nimport \"shape\"\n\nvar made int\n\nfunc Make(n int) *shape.Box {\n\tmade++\n\tb := shape.New(n)\n\tb.Tag = \"drawn\"\n\treturn b\n}\n\nfunc Count() int {\n\treturn made\n}\n",
 })
